@@ -1,10 +1,196 @@
 import SV.Driver.Util
-/- svdriver_c20: line protocol for the C20 model (stub until the model is built). -/
-namespace SV.Driver.C20
+import SV.Model.Labels
+/-
+svdriver_c20: line protocol for the C20 model (snapshot-label protocol).
 
-def step (s : Unit) : List String → Unit × String
+Encoding: strings are hex (`-` = empty string); a list of strings is `~` (empty list) or
+elements joined by `,`; a label map is `nil` (nil Go map), `~` (empty) or `k=v` pairs joined by `,`;
+a child descriptor is `<L|N>/<digest>/<urls>/<ann>` (L = layer media type).
+
+  keys                                         -> the ten label-key constants, hex, space separated
+  man <0|1> <child>*                           -> ok <n>          (parent is a manifest: 1)
+  wdefault <ref> <prefetch>                    -> ok
+  wextra <cri|id> <ref> <manifestDigest> <pf>  -> ok | err | panic
+  labels <i>                                   -> none | nil | <n> inv=<#labels failing validate> <map, sorted>
+  read <default|cri|both> <i> <dels> <sets> <reftable> <dflt>
+        -> err pf=<n> | ok name=<..> target=<..> urls=<..> nb=<d>:<urls>;… pf=<n>
+     (labels of child i after the writer, minus keys `dels`, plus bindings `sets`;
+      reftable = `~` or `<ref>=ok:<spec>` / `<ref>=err` joined by `,` — the answers of reference.Parse)
+  awv <key> <values>                           -> <value> valid=<0|1>
+  pf <str> <dflt>                              -> <n>
+  dig <str>                                    -> ok | err
+  split <str>                                  -> <list>
+-/
+namespace SV.Driver.C20
+open SV.Driver SV.Labels
+
+def toStr (bs : List UInt8) : Str := bs.map fun b => Char.ofNat b.toNat
+def ofStr (s : Str) : List UInt8 := s.map fun c => UInt8.ofNat c.toNat
+
+def unhexS? (s : String) : Option Str := (unhex? s).map toStr
+def hexS (s : Str) : String := hex (ofStr s)
+
+def parseList? (s : String) : Option (List Str) :=
+  if s = "~" then some [] else (s.splitOn ",").mapM unhexS?
+
+def showList (l : List Str) : String :=
+  if l.isEmpty then "~" else ",".intercalate (l.map hexS)
+
+def parseKV? (s : String) : Option (Str × Str) :=
+  match s.splitOn "=" with
+  | [k, v] => do
+    let k ← unhexS? k
+    let v ← unhexS? v
+    some (k, v)
+  | _ => none
+
+def parseMap? (s : String) : Option Labels :=
+  if s = "~" then some [] else (s.splitOn ",").mapM parseKV?
+
+def parseAnn? (s : String) : Option (Option Labels) :=
+  if s = "nil" then some none else (parseMap? s).map some
+
+def parseChild? (s : String) : Option Desc :=
+  match s.splitOn "/" with
+  | [t, d, u, a] => do
+    let isL ← (if t = "L" then some true else if t = "N" then some false else none)
+    let d ← unhexS? d
+    let u ← parseList? u
+    let a ← parseAnn? a
+    some { isLayer := isL, digest := d, urls := u, ann := a }
+  | _ => none
+
+/-- bytewise lexicographic `<` on strings (Go's string order). -/
+def strLt : Str → Str → Bool
+  | [], [] => false
+  | [], _ :: _ => true
+  | _ :: _, [] => false
+  | a :: as, b :: bs => if a.toNat < b.toNat then true else if b.toNat < a.toNat then false else strLt as bs
+
+def insertKV (p : Str × Str) : Labels → Labels
+  | [] => [p]
+  | q :: qs => if strLt p.1 q.1 then p :: q :: qs else q :: insertKV p qs
+
+/-- canonical form of a map: first binding of every key, sorted by key. -/
+def canon (m : Labels) : Labels :=
+  let rec dedup : Labels → List Str → Labels
+    | [], _ => []
+    | (k, v) :: r, seen => if seen.contains k then dedup r seen else (k, v) :: dedup r (k :: seen)
+  (dedup m []).foldr insertKV []
+
+def showMap (m : Labels) : String :=
+  let c := canon m
+  if c.isEmpty then "~" else ",".intercalate (c.map fun p => s!"{hexS p.1}={hexS p.2}")
+
+def parseRefEntry? (s : String) : Option (Str × Option Str) :=
+  match s.splitOn "=" with
+  | [r, a] => do
+    let r ← unhexS? r
+    if a = "err" then some (r, none)
+    else match a.splitOn ":" with
+      | ["ok", spec] => do
+        let spec ← unhexS? spec
+        some (r, some spec)
+      | _ => none
+  | _ => none
+
+def parseRefTable? (s : String) : Option (List (Str × Option Str)) :=
+  if s = "~" then some [] else (s.splitOn ",").mapM parseRefEntry?
+
+def missingOracle : Str := "MISSING-REF-ORACLE".toList
+
+def refOracle (t : List (Str × Option Str)) (s : Str) : Option Str :=
+  match t.find? (fun e => e.1 = s) with
+  | some (_, a) => a
+  | none => some missingOracle
+
+structure St where
+  isManifest : Bool := true
+  children : List Desc := []
+  out : Outcome (List Desc) := .ok []
+
+def showNb (nb : List (Str × List Str)) : String :=
+  if nb.isEmpty then "~" else ";".intercalate (nb.map fun p => s!"{hexS p.1}:{showList p.2}")
+
+def step (s : St) : List String → St × String
+  | ["keys"] =>
+    (s, " ".intercalate ([kRef, kDigest, kLayers, kURLsPrefix, kURLs, kPrefetch,
+                          kCriRef, kCriDigest, kCriLayers, kCriManifest].map hexS))
+  | "man" :: m :: cs =>
+    match (if m = "1" then some true else if m = "0" then some false else none), cs.mapM parseChild? with
+    | some m, some cs => ({ isManifest := m, children := cs, out := .ok cs }, s!"ok {cs.length}")
+    | _, _ => (s, "bad-op")
+  | ["wdefault", ref, pf] =>
+    match unhexS? ref, parseInt? pf with
+    | some ref, some pf =>
+      ({ s with out := .ok (defaultWriter s.isManifest ref pf s.children) }, "ok")
+    | _, _ => (s, "bad-op")
+  | ["wextra", w, ref, md, pf] =>
+    match unhexS? ref, unhexS? md, parseInt? pf with
+    | some ref, some md, some pf =>
+      let wrapped? :=
+        if w = "cri" then some (criWriter s.isManifest ref md s.children)
+        else if w = "id" then some s.children else none
+      match wrapped? with
+      | none => (s, "bad-op")
+      | some wrapped =>
+        let o := extraWriter s.isManifest pf wrapped
+        ({ s with out := o }, match o with | .ok _ => "ok" | .err => "err" | .panic => "panic")
+    | _, _, _ => (s, "bad-op")
+  | ["labels", i] =>
+    match parseNat? i, s.out with
+    | some i, .ok cs =>
+      match cs[i]? with
+      | none => (s, "bad-op")
+      | some c =>
+        match c.ann with
+        | none => (s, "nil")
+        | some a =>
+          let c := canon a
+          let inv := (c.filter fun p => !validate p.1 p.2).length
+          (s, s!"{c.length} inv={inv} {showMap a}")
+    | some _, _ => (s, "none")
+    | none, _ => (s, "bad-op")
+  | ["read", which, i, dels, sets, rt, dflt] =>
+    match parseNat? i, parseList? dels, parseMap? sets, parseRefTable? rt, parseInt? dflt, s.out with
+    | some i, some dels, some sets, some rt, some dflt, .ok cs =>
+      match cs[i]? with
+      | none => (s, "bad-op")
+      | some c =>
+        let base := (c.ann.getD []).filter fun p => !dels.contains p.1
+        let labels := sets.foldl (fun m p => set m p.1 p.2) base
+        let r? :=
+          if which = "default" then some (readSource (refOracle rt) defaultKeys labels)
+          else if which = "cri" then some (readSource (refOracle rt) criKeys labels)
+          else if which = "both" then some (readBoth (refOracle rt) labels)
+          else none
+        let pf := mountPrefetch dflt labels
+        match r? with
+        | none => (s, "bad-op")
+        | some none => (s, s!"err pf={pf}")
+        | some (some src) =>
+          (s, s!"ok name={hexS src.name} target={hexS src.target} urls={showList src.urls} nb={showNb src.neighbours} pf={pf}")
+    | _, _, _, _, _, _ => (s, "bad-op")
+  | ["awv", key, vals] =>
+    match unhexS? key, parseList? vals with
+    | some key, some vals =>
+      let v := appendWithValidation key vals
+      (s, s!"{hexS v} valid={if validate key v then 1 else 0}")
+    | _, _ => (s, "bad-op")
+  | ["pf", str, dflt] =>
+    match unhexS? str, parseInt? dflt with
+    | some str, some dflt => (s, s!"{mountPrefetch dflt [(kPrefetch, str)]}")
+    | _, _ => (s, "bad-op")
+  | ["dig", str] =>
+    match unhexS? str with
+    | some str => (s, if digestValid str then "ok" else "err")
+    | none => (s, "bad-op")
+  | ["split", str] =>
+    match unhexS? str with
+    | some str => (s, showList (splitComma str))
+    | none => (s, "bad-op")
   | _ => (s, "bad-op")
 
 end SV.Driver.C20
 
-def main : IO Unit := SV.Driver.loop SV.Driver.C20.step ()
+def main : IO Unit := SV.Driver.loop SV.Driver.C20.step {}
